@@ -2,13 +2,22 @@ import Aiorpcx.Common.Hex
 import Aiorpcx.C15.Model
 /-! Line-protocol driver for the C15 model.
     in : `<fixed 0|1> <maxDelay> ; <event> ; ...`  events: `S s m flags` `B s m flags` `P`
-         `R flags` `L` `A dt` `C m` `G 0|1`   (flags = string of 0/1 or `-`; `B` = a big message:
+         `R flags` `L` `A dt` `C m` `G 0|1` `X flags act,act,..` with act = `S.s.m` | `B.s.m` |
+         `P` | `R` (performed back to back, the loop runs only afterwards)   (flags = string of 0/1 or `-`; `B` = a big message:
          the model abstracts the size, so it is the same event as `S`)
     out: per event `obs=.. cs=.. cl=.. lo=.. rd=.. nb=.. t=..`, separated by ` ; ` -/
 open Aiorpcx Aiorpcx.C15
 
 def parseFlags (s : String) : List Bool :=
   if s == "-" then [] else s.toList.map (· == '1')
+
+def parseAct (s : String) : Option Act :=
+  match s.splitOn "." with
+  | ["S", a, b] => do pure (.send (← a.toNat?) (← b.toNat?))
+  | ["B", a, b] => do pure (.send (← a.toNat?) (← b.toNat?))
+  | ["P"] => some .pause
+  | ["R"] => some .resume
+  | _ => none
 
 def parseEvent (s : String) : Option Event :=
   match (s.splitOn " ").filter (· ≠ "") with
@@ -17,6 +26,7 @@ def parseEvent (s : String) : Option Event :=
   | ["C", m] => do pure (.cancel (← m.toNat?))
   | ["G", "0"] => some (.gclose false)
   | ["G", "1"] => some (.gclose true)
+  | ["X", f, acts] => do pure (.batch (← (acts.splitOn ",").mapM parseAct) (parseFlags f))
   | ["P"] => some .pause
   | ["R", f] => some (.resume (parseFlags f))
   | ["L"] => some .lost
